@@ -38,10 +38,9 @@ Qed.
 Lemma front_pad_u32 st size a : pow2 a -> front_pad st (u32 size) a = (e_start st - size) mod a.
 Proof.
   intros Ha. rewrite front_pad_spec by exact Ha. pose proof (pow2_pos a Ha).
-  destruct (pow2_divide_u32 a Ha) as [k Hk]. unfold u32.
-  replace (e_start st - size mod 4294967296) with (e_start st - size + (size / 4294967296) * k * a)
-    by (rewrite (Z.div_mod size 4294967296) at 1 by lia; lia).
-  apply Z.mod_add. lia.
+  unfold u32. rewrite Zminus_mod.
+  rewrite <- (Zmod_div_mod a 4294967296 size) by (try lia; apply pow2_divide_u32, Ha).
+  rewrite <- Zminus_mod. reflexivity.
 Qed.
 
 (* ------------------------------------------------------------------ with a parent: any depth >= 1 *)
@@ -171,4 +170,30 @@ Proof.
   destruct ws.
   - replace (r - 4) with (e_start st - (lenZ data + 4) - pad) by lia. exact Hpad.
   - replace r with (e_start st - (lenZ data + 0) - pad) by lia. exact Hpad.
+Qed.
+
+(* ------------------------------------------------------------------ depth 1 *)
+(* every start_buffer opens a frame: inside ANY open buffer - the top-level one included, whose nest id is 0 when it is
+   the first buffer of the builder - the level is positive, so [embed_buffer_nested] applies *)
+Lemma level_start_buffer st id ba fl : level (start_buffer st id ba fl) = level st + 1 /\ 0 < level (start_buffer st id ba fl).
+Proof.
+  unfold level, start_buffer. cbn [with_buffer_frame frames length]. lia.
+Qed.
+
+Lemma nest_id_first_buffer id ba fl : nest_id (start_buffer init_state id ba fl) = 0 /\ is_top_buffer (start_buffer init_state id ba fl) = true.
+Proof. split; reflexivity. Qed.
+
+(* the replay of fixes/C15-embed-buffer-inside-top-level-buffer.md: a 32 byte buffer (root struct N16 at offset 16)
+   embedded with alignment 16 directly inside the top-level buffer *)
+Definition ex_data : list Z := [16; 0; 0; 0] ++ zeros 12 ++ [1; 2; 3; 4; 5; 6; 7; 8; 9; 10; 11; 12; 13; 14; 15; 16].
+Definition ex_state : est := start_buffer (with_settings init_state true 0 0) 0 0 0.
+
+Lemma embed_depth1_example :
+  nest_id ex_state = 0 /\ level ex_state = 1 /\ st_ok ex_state /\ ma_ok ex_state /\
+  exists st', embed_buffer ex_state 0 ex_data 16 0 = Some (-36, [{| em_off := -36; em_bytes := le32 32 ++ ex_data |}], st') /\
+              min_align st' = 16 /\ e_end st' = 0 /\ small st'.
+Proof.
+  split; [reflexivity|]. split; [reflexivity|].
+  split; [unfold st_ok; cbn; lia|]. split; [right; apply pow2_1|].
+  eexists. split; [vm_compute; reflexivity|]. split; [reflexivity|]. split; [reflexivity|]. unfold small. cbn. lia.
 Qed.
